@@ -2,18 +2,18 @@
 # usage: mutant.sh <patch.diff> <check id>...   — applies a seeded change to /repo, runs the given
 # checks (quick tier) with evidence redirected to a scratch dir, prints the verdicts, and undoes the change.
 PATCH="$1"; shift
-. /verif/bin/env.sh
+. "$(dirname "${BASH_SOURCE[0]}")/env.sh"
 if ! git -C /repo diff --quiet; then echo "repo working tree not clean"; exit 2; fi
 git -C /repo apply "$PATCH" || { echo "patch does not apply"; exit 2; }
 OUT=$(mktemp -d /tmp/mutrun-XXXX)
-cp /verif/known_findings.json $OUT/
-/verif/bin/build.sh all >/dev/null 2>&1 || echo "BUILD FAILED"
+cp "$VERIF_ROOT/known_findings.json" $OUT/
+"$VERIF_ROOT/bin/build.sh" all >/dev/null 2>&1 || echo "BUILD FAILED"
 for id in "$@"; do
   s=$(date +%s)
-  res=$(cd /verif && VERIF_DIR=$OUT ${VERIF_SEED:+VERIF_SEED=$VERIF_SEED} /verif/.build/lab check $id -tier ${TIER:-quick} 2>&1)
+  res=$(cd "$VERIF_ROOT" && VERIF_DIR=$OUT ${VERIF_SEED:+VERIF_SEED=$VERIF_SEED} "$VERIF_ROOT/.build/lab" check $id -tier ${TIER:-quick} 2>&1)
   echo "$id $(echo "$res" | grep -E '^(HELD|VIOLATED|INCONCLUSIVE)' | tail -1) [$(( $(date +%s)-s ))s]"
   echo "$res" | grep -E 'signature:' | sort | uniq -c | sort -rn | head -6 | cut -c1-230
 done
 git -C /repo checkout -- .
-/verif/bin/build.sh all >/dev/null 2>&1
+"$VERIF_ROOT/bin/build.sh" all >/dev/null 2>&1
 rm -rf $OUT
